@@ -320,6 +320,35 @@ def precedence(rep):
                 rep.violation(f"precedence:{has_builtin}:{has_user}:{has_base}:{requested_as}:{explicit_fn}", f"aggregation spec precedence: {name}, got {got or err}", {"obligation": name, "got": got or err}, True)
     finally:
         fl.load_aggregation_dict = saved
+    # ... and through the real load_and_check_functions: a user specification wins over a FUNCTION of the
+    # same name as well (shipped or user-supplied), whatever else is present
+    import warnings as _w
+
+    for explicit_fn, requested_as in itertools.product([False, True], ["target", "argument"]):
+        funcs = {"base": base}
+        if explicit_fn:
+            funcs["base_hh"] = explicit_base_hh
+        if requested_as == "argument":
+            funcs["consumer"] = consumer
+        user = {"base_hh": {"source_col": "base", "aggr": "min"}}
+        name = f"S2 user spec for base_hh, function of the same name present={explicit_fn}, requested as {requested_as}: the name is bound to the user's aggregate"
+        try:
+            with _w.catch_warnings():
+                _w.simplefilter("ignore")
+                fno_, _fo = fl.load_and_check_functions(functions_raw=[funcs], targets=["base_hh"] if requested_as == "target" else ["consumer"], data_cols=["x", "hh_id", "p_id"], aggregate_by_group_specs=user, aggregate_by_p_id_specs={})
+            try:
+                got = facts.agg_kind(fno_["base_hh"])[0]
+            except Exception:  # noqa: BLE001
+                got = f"not an aggregate ({getattr(inspect.unwrap(fno_['base_hh']), '__name__', '?')})"
+        except TypeError as ex:
+            rep.ob(name, "unsupported", "exhaustive-run", 0, "src/_gettsim/functions_loader.py:41 load_and_check_functions", "binding", repr(ex))
+            continue
+        except Exception as ex:  # noqa: BLE001
+            got = repr(ex)[:100]
+        ok = got == "min"
+        rep.ob(name, "discharged" if ok else "refuted", "exhaustive-run", 0, "src/_gettsim/functions_loader.py:41 load_and_check_functions", "precedence", f"got {got}")
+        if not ok:
+            rep.violation(f"precedence2:{explicit_fn}:{requested_as}", f"{name}: got {got}", {"obligation": name, "got": got}, True)
     # by-p_id specs: user spec wins for that call and does not leak into later calls
     try:
         builtin = fl.load_aggregation_dict(typ="aggregate_by_p_id")
